@@ -12,7 +12,7 @@ import docs, project
 
 LEVEL = "model_checking"
 GEN = "CONSTANTS MaxSecs = %d\n MaxLevel = %d\n Sim = %s\nINIT Init\nNEXT Next\nINVARIANTS DepthOK Partition EmitInv\nCHECK_DEADLOCK FALSE\n"
-UMAP = {"~E": "é"}
+UMAP = {"~E": "é", "~F": "\f", "~V": "\v", "~U": "\x1f"}
 
 
 def enc(s):
@@ -27,6 +27,9 @@ def dec(b):
 
 
 def opml_items(data):
+    # form feed, vertical tab and 0x1F cannot be written in XML 1.0 at all (neither raw nor as a character reference): the outline is judged with the raw
+    # bytes replaced by the specification's place-holders -- the library's own reader takes them as they are, and a reference such as '&#12;' stays an error
+    for ph in ("~F", "~V", "~U"): data = data.replace(UMAP[ph].encode(), ph.encode())
     ok, evs, err = project.xml_events(data)
     if not ok: return False, [], err
     items = []; depth = 0; inbody = False
@@ -97,7 +100,8 @@ def opml_parser_level(chk, tier, exported):
 def run(tier, seed):
     chk = Check("C14", LEVEL, tier, seed)
     rnd = random.Random(seed)
-    chk.assumptions += ["XML unescaping of the exported OPML is done by expat (an independent XML parser), the import by the library",
+    chk.assumptions += ["control characters other than TAB, LF, CR (form feed, vertical tab, 0x1F in the body alphabet) have no XML 1.0 spelling: the exported outline is parsed with those raw bytes replaced by place-holders",
+                        "XML unescaping of the exported OPML is done by expat (an independent XML parser), the import by the library",
                         "properly nested = first heading at level 1, no level skipped going down; metadata values single-line",
                         "heading titles do not end in '#'; one multi-byte place-holder substituted bijectively"]
     L, ML = (3, 3) if tier == "quick" else (5, 4)
